@@ -20,11 +20,12 @@ func init() {
 }
 
 func runC16(c *Ctx, r *Report) {
+	defer c16ConstructorsFresh(c, r, "C16.R10", "l4socks") // "the commands enabled in its configuration": a handler without commands gets the defaults, not what another handler's configuration left in a shared default list
 	defer c16R5(c, r, "C16.R5")
 	defer c16Store(c, r, "C16.R6")
 	defer c16Resolve(c, r, "C16.R8")
 	defer c15TablesFor(c, r, "C16.R9", "l4socks.(*Socks5Handler)") // "a configured username and password": the credentials line of the Caddyfile holds pairs - a name without a password is refused, not given one
-	defer c15R14(c, r, "C16.R7") // whether credentials are configured is decided from what the Caddyfile option stored: it must store every pair it was given
+	defer c15R14(c, r, "C16.R7")                                   // whether credentials are configured is decided from what the Caddyfile option stored: it must store every pair it was given
 	r.rule("C16.R1", "permit rule per command-list scenario", 8)
 	r.rule("C16.R2", "authentication methods per credential scenario", 8)
 	r.rule("C16.R3", "NewServer receives WithRule(rule) and WithAuthMethods(methods)", 8)
